@@ -160,6 +160,15 @@ class C17(Prop):
                 if L == 3 and tier == "quick" and rng.random() < 0.5:
                     continue
                 yield {"stream": "series", "elems": [list(a) for a in combo], "y": [0], "z": [0], "w": None, "container": "list", "big": False}
+        for k in range(80 if tier == "quick" else 1500):
+            # mixed calls: float observations with integer-typed predictions (and the other way round) for the degrees at which an
+            # integer base would be refused or overflow (negative integers, large odd integers)
+            n = rng.randint(2, 6)
+            fl, it = rng.choice(["np_float64", "list_float", "pl_float"]), rng.choice(["np_int64", "np_int32", "list_int", "pl_int", "tuple_int"])
+            c = {"stream": "score", "y": [rng.randint(1, 9) for _ in range(n)], "z": [rng.randint(1, 9) for _ in range(n)], "w": None,
+                 "container": fl if k % 2 == 0 else it, "zcontainer": it if k % 2 == 0 else fl, "big": False,
+                 "kind": rng.choice(["hqs", "hqs", "hes"]), "h": rng.choice([-1, -2, -3, 3, 5, 7, -1.0]), "level": rng.choice([0.5, 0.25, 0.8])}
+            yield c
         N = 1500 if tier == "quick" else 25000
         for k in range(N):
             ep = ENTRY[k % len(ENTRY)]
